@@ -50,7 +50,25 @@ structure AnalyzerSpec where
   initDerived : List Nat := []            -- slots `__init__` computes from the input
   inherited : List Nat := []              -- getters defined in a base class (not in the own class dict)
   refreshed : List Nat := []              -- slots an overriding `set_input` recomputes from the new input
+  processBound : List Nat := []           -- slots `__init__` may bind to a module-level or class-level object that is written later
+  argKept : List Nat := []                -- slots `__init__` binds to the caller's argument object itself and writes into
   deriving Repr
+
+/-- HOW `ResetMixin.reset` obtains the names of the one-time attributes it deletes (generated from
+    the source of `reset` by harness/translate_c13.py) -/
+inductive NameSource where
+  | walkPerCall      -- walks the class dictionaries on every call; nothing is kept on the class
+  | ownTable         -- a table kept on the class, looked up in the class's OWN dictionary only
+  | inheritedTable   -- a table kept on the class, found by attribute lookup (finds a PARENT's table)
+  | unknown          -- some other state outside the object (not recognised)
+  deriving DecidableEq, Repr
+
+/-- the sources for which `reset` clears exactly the fired attributes of the object's class and its
+    ancestors in every process history (Lemmas/Sessions.lean: `namesFor_safe`, `session_proj`) -/
+def NameSource.safe : NameSource → Bool
+  | .walkPerCall => true
+  | .ownTable => true
+  | _ => false
 
 /-- effects of one getter under a given configuration -/
 structure Eff where
